@@ -194,6 +194,22 @@ the target and of every module of the graph, plus one. -/
 def fuelBound (g : Graph ν ω) (target : List (Imp ν)) : Nat :=
   target.length + (g.map (fun m => m.imports.length)).sum + 1
 
+/-! ### Where an origin comes from: `find_module_in_path` (rattr/module_locator/_locate.py)
+
+`install_location = python_path.resolve()`, then `install_location /= part` for every part of the
+dotted name, then `/ "__init__.py"` or `.with_suffix(".py")`; the result is NOT resolved again. So
+the *search directory* is canonical whatever its spelling (through a symlink, `./x`, `x/../x`),
+while everything below it stays as spelled by the module name. Paths are lists of segments; `σ` is
+the type of spellings of search directories, `resolve : σ → List Str` is `Path.resolve()`. -/
+
+/-- The origin path `find_module_in_path` builds for the file `rel` below the search dir `d`. -/
+def originIn {σ : Type} (resolve : σ → List Str) (d : σ) (rel : List Str) : List Str :=
+  resolve d ++ rel
+
+/-- The real file each analysis read, per analysed name (`real` = `os.path.realpath` on origins). -/
+def realFiles {ρ : Type} (g : Graph ν ω) (real : ω → ρ) (analysed : List ν) : List (Option ρ) :=
+  analysed.map fun n => ((lookup g n).bind (·.origin)).map real
+
 end Rattr.Imports
 
 namespace Rattr.Resolve
